@@ -64,12 +64,6 @@ Qed.
 (* what one mapper event does to the entry of its own entity and to every other entry *)
 Definition ev_key (g : cfg) (e : ent_ev) : pk := key_of (cls_of g (e_cls e)) (e_vals e).
 
-Definition tracked (g : cfg) (e : ent_ev) : bool :=
-  let cc := cls_of g (e_cls e) in
-  k_versioned cc &&
-  ((e_kind e =? OP_INS) || negb (e_kind e =? OP_UPD) ||
-   (is_modified cc (e_colchg e) (e_relchg e) && existsb (real_change cc e) (e_cstate e))).
-
 Definition new_kind (had : bool) (e : ent_ev) : Z :=
   if e_kind e =? OP_INS then (if had then OP_UPD else OP_INS)
   else if e_kind e =? OP_UPD then OP_UPD else OP_DEL.
